@@ -31,4 +31,5 @@ CLAIMED = {
 }
 
 _todo = "contracts for the functions this property depends on are not yet discharged in this revision; no claim is made"
-NOT_APPLICABLE = {p: _todo for p in ["C06","C07","C10","C11","C12","C13","C14","C15","C16","C17","C18","C19","C20"]}
+CLAIMED["C11"] = (TECH, "wip", COMMON_NOTE, "DESIGN.md section 4 C11")
+NOT_APPLICABLE = {p: _todo for p in ["C06","C07","C10","C12","C13","C14","C15","C16","C17","C18","C19","C20"]}
